@@ -238,7 +238,9 @@ func refEncDescBody(w *refW, d *Descriptor) {
 			}
 		}
 	default:
-		w.bytes(d.Unknown.Content)
+		if d.Unknown != nil {
+			w.bytes(d.Unknown.Content)
+		}
 	}
 }
 
@@ -275,6 +277,9 @@ func refEncDescriptorLoop(w *refW, ds []*Descriptor) {
 // ---- symbolic values ----
 
 func vLen(level int) int {
+	if level < 0 {
+		return vchoose(0, 2)
+	}
 	if level == 0 {
 		return vchoose(0, 1, 3)
 	}
@@ -407,15 +412,19 @@ func vModelDescriptor(idx, level int) *Descriptor {
 		}
 		d.VBIData = x
 	case 23:
-		d.Tag = vnondetU8()
-		vassume(d.Tag < 0x80 || d.Tag == 0xff)
-		for _, t := range descTags[:23] {
-			vassume(d.Tag != t)
+		if level >= 0 {
+			d.Tag = vnondetU8()
+			vassume(d.Tag < 0x80 || d.Tag == 0xff)
+			for _, t := range descTags[:23] {
+				vassume(d.Tag != t)
+			}
 		}
 		d.Unknown = &DescriptorUnknown{Tag: d.Tag, Content: vnondetBytes(vLen(level))}
 	case 24:
-		d.Tag = vnondetU8()
-		vassume(d.Tag >= 0x80 && d.Tag <= 0xfe)
+		if level >= 0 {
+			d.Tag = vnondetU8()
+			vassume(d.Tag >= 0x80 && d.Tag <= 0xfe)
+		}
 		d.UserDefined = vnondetBytes(vLen(level))
 	}
 	return d
